@@ -369,13 +369,26 @@ func (vfs *MemFS) link(oldname, newname string) (retry bool, err error) {
 
 	verifYield(&first.mu, true)
 	first.mu.Lock()
-	defer first.mu.Unlock()
 
 	if second != first {
-		verifYield(&second.mu, true)
-		second.mu.Lock()
+		// The order is computed from paths that may be stale : rather than waiting for the second
+		// directory while holding the first one, the call waits for it empty-handed and starts over.
+		verifYield(nil, false)
+
+		if !second.mu.TryLock() {
+			first.mu.Unlock()
+
+			verifYield(&second.mu, true)
+			second.mu.Lock()
+			second.mu.Unlock() //nolint:staticcheck // Wait for the lock to be available.
+
+			return true, nil
+		}
+
 		defer second.mu.Unlock()
 	}
+
+	defer first.mu.Unlock()
 
 	oIsRoot := oChild == node(oParent)
 	nIsRoot := nChild != nil && nChild == node(nParent)
@@ -1051,13 +1064,26 @@ func (vfs *MemFS) rename(oldpath, newpath string) (retry bool, err error) {
 
 	verifYield(&first.mu, true)
 	first.mu.Lock()
-	defer first.mu.Unlock()
 
 	if second != first {
-		verifYield(&second.mu, true)
-		second.mu.Lock()
+		// The order is computed from paths that may be stale : rather than waiting for the second
+		// directory while holding the first one, the call waits for it empty-handed and starts over.
+		verifYield(nil, false)
+
+		if !second.mu.TryLock() {
+			first.mu.Unlock()
+
+			verifYield(&second.mu, true)
+			second.mu.Lock()
+			second.mu.Unlock() //nolint:staticcheck // Wait for the lock to be available.
+
+			return true, nil
+		}
+
 		defer second.mu.Unlock()
 	}
+
+	defer first.mu.Unlock()
 
 	if oParent.removed || nParent.removed || vfs.renameSeqNow() != seq ||
 		oParent.children[oPI.Part()] != oChild || nParent.children[nPI.Part()] != nChild {
